@@ -101,6 +101,11 @@ func (c *conn) terminate(err error) error {
 	return c.stream.Close() // Close the connection
 }
 
+// terminated reports whether the connection has been closed or torn down after a failure.
+func (c *conn) terminated() bool {
+	return c.closed.Load() || c.ctx.Err() != nil
+}
+
 // checkAvailable checks if the connection is available for use.
 // It returns net.ErrClosed if the connection has been closed.
 // If the provided context or the connection's internal context is done,
